@@ -373,6 +373,11 @@ where
         let actions_sv = SparseVec::<usize>::from(&actions, 0, usize::from(grm.tokens_len()));
         let gotos_sv = SparseVec::<usize>::from(&gotos, 0, usize::from(grm.rules_len()));
 
+        // A state's edges are stored in a randomly seeded `HashMap`, so the shift/reduce conflicts
+        // of one state were found in an order that differs from process to process. List them in a
+        // fixed order so that the table (and anything serialised from it) is reproducible.
+        shift_reduce.sort_unstable_by_key(|&(tidx, _, stidx)| (stidx, tidx));
+
         let conflicts = if !(reduce_reduce.is_empty() && shift_reduce.is_empty()) {
             Some(Conflicts {
                 reduce_reduce,
